@@ -89,7 +89,7 @@ def run(prop, tier):
     reps = '{"10.0.0.7:40001","10.0.0.7:40002"}'    # two replicas behind one IP address: distinct streams all the same
     base = dict(Replicas=reps, NMsg=3, Deviations="{}")
     r = vlib.run_tlc("ReplFanout", "rf_pure.cfg", cfg_text=vlib.cfg_text(base, invariants=["NoSendOnClosed", "NoMapRace", "ReceivedInCommitOrder", "ConnectedGetAll"],
-                                                                       view="View", properties=["PrefixStable"]), timeout=900)
+                                                                       view="View", properties=["PrefixStable"]), timeout=1800, coverage=not quick)
     vlib.tlc_ok(r, "ReplFanout pure")
     res.tlc(r, "ReplFanout/pure")
     if r["violated"]:
